@@ -6,9 +6,9 @@ INVARIANTS
   C06_MandatoryLocalPref_KF
   C06_NeverWeaker_KF
   C06_TawRemovesAll_KF
-  C06_NeverInstalledMalformed_KF
-  C06_MandatoryPresent_KF
-  C06_ResetOnlyIfCalledFor_KF
-  C06_Code_KF
+  C06_NeverInstalledMalformed
+  C06_MandatoryPresent
+  C06_ResetOnlyIfCalledFor
+  C06_Code
   C06_ResetRemovesAll
-  C06_WellFormedNotPenalised_KF
+  C06_WellFormedNotPenalised
